@@ -314,6 +314,10 @@ def etau_madau(wave, z, **kwargs):
                     0.023 * (xe ** 1.68 - xc ** 1.68)),
                    tau)
 
+    # The published fit turns negative at short wavelengths (it tends to
+    # -0.023 * xe ** 1.68 as wave -> 0); an optical depth cannot be negative.
+    tau = np.maximum(tau, 0.)
+
     thru = np.where(tau > 700., 0., np.exp(-tau))
     meta = {'descrip': 'Madau 1995 extinction for z={0}'.format(z)}
     return ExtinctionCurve(ExtinctionModel1D, points=wave, lookup_table=thru,
